@@ -98,13 +98,16 @@ def _prepare(trace):
     else:
         victim = realize.realize(ctx.project, trace["victim"])
     ok = True
-    if mode in ("undo", "redo", "undo_sel", "redo_sel"):
+    if mode in ("undo", "undo_drop", "redo", "undo_sel", "redo_sel"):
         ctx.clock.advance(1_000_000_000)
         try:
             if isinstance(victim, _ApiVictim):
                 victim(ctx.project)
             else:
                 ctx.project.do(victim)
+            if mode == "undo_drop":
+                # the victim waits on the redo list while an older change is undone with drop=True
+                ctx.project.history.undo()
             if mode == "redo":
                 ctx.project.history.undo()
                 if trace.get("between"):
@@ -154,6 +157,8 @@ def _act(ctx, victim, mode, fault):
             ctx.project.do(victim, **kw)
         elif mode == "undo":
             h.undo(**kw)
+        elif mode == "undo_drop":
+            h.undo(drop=True, **kw)
         elif mode == "undo_sel":
             h.undo(change=h.undo_list[ctx.sel % len(h.undo_list)], **kw)
         elif mode == "redo_sel":
@@ -237,7 +242,7 @@ class AtomicEngine(Engine):
             "removals": rng.random() < 0.3,
             "nest_p": rng.choice([0.0, 0.1, 0.3]),
             "natural_fail_p": rng.choice([0.0, 0.1, 0.25]),
-            "errnos": rng.choice([["EIO"], ["ENOSPC", "EACCES", "EIO"]]),
+            "errnos": rng.choice([["EIO"], ["ENOSPC", "EACCES", "EIO"], ["ENOENT", "EEXIST", "EPERM", "ESTALE"], ["ENOENT"]]),
             "cuts": rng.choice([[2], [0, 2, 4], [0, 1, 3]]),
             "prelude": rng.choice([0, 1, 2, 3]),
             # sometimes the undo list is already full when the victim is performed
@@ -298,7 +303,7 @@ class AtomicEngine(Engine):
             classes = _classes_after(init, prelude[:-1])
             prelude.append({"op": "undo"})
             undone = 1
-        mode = rng.choice(["do", "do", "undo", "redo"] + (["undo_sel", "undo_sel", "redo_sel"] if len([p for p in prelude if p["op"] == "do"]) >= 1 else []))
+        mode = rng.choice(["do", "do", "undo", "redo"] + (["undo_drop"] if len([p for p in prelude if p["op"] == "do"]) - undone >= 1 else []) + (["undo_sel", "undo_sel", "redo_sel"] if len([p for p in prelude if p["op"] == "do"]) >= 1 else []))
         allow_bad = mode == "do" and rng.random() < swarm["natural_fail_p"]
         victim, _after = gen.gen_changeset(rng, tree, classes, swarm, 1, allow_bad=allow_bad)
         victim["desc"] = "victim"
@@ -429,7 +434,7 @@ class AtomicEngine(Engine):
                     "mode": mode,
                     "fault": kind,
                     "fault_op": fop,
-                    "remove_applied_before": mode != "undo" and "remove" in shape[:applied],
+                    "remove_applied_before": mode not in ("undo", "undo_drop") and "remove" in shape[:applied],
                     "victim_has_remove": "remove" in shape,
                 }
                 if exc is not None:
@@ -472,7 +477,7 @@ class AtomicEngine(Engine):
     def _check_raised(self, out, trace, fault, ctx, s0, exc, fired, applied, info=None, victim=None, s1=None, twin_raised=True):
         shape = [o[0] for o in flat_ops(trace["victim"]["ops"])]
         info = dict(info or {"mode": trace["mode"], "fault": fault["kind"], "fault_op": None,
-                             "remove_applied_before": trace["mode"] != "undo" and "remove" in shape[:applied],
+                             "remove_applied_before": trace["mode"] not in ("undo", "undo_drop") and "remove" in shape[:applied],
                              "victim_has_remove": "remove" in shape})
         info["exc"] = type(exc).__name__
         # did the rollback meet RemoveResource.undo (not implemented upstream)? The exception
